@@ -2,7 +2,7 @@
    Model: Pulse/PulseModel.v (util/PulseNode.{h,cpp}); oracles gt/pl = the virtual GetPulseTime()/Pulse(). *)
 From Coq Require Import List Arith NArith Lia.
 From Muscle Require Import Pulse.PulseModel Pulse.PulseInv Pulse.PulseOps Pulse.PulseSweep Pulse.PulseReach Pulse.PulseMin
-     Pulse.PulseExact Pulse.PulseRefuted Pulse.PulseForest Pulse.PulseFuel.
+     Pulse.PulseExact Pulse.PulseAsk Pulse.PulseRefuted Pulse.PulseForest Pulse.PulseFuel.
 Import ListNotations.
 
 (* the translated constant the model's clamp rests on *)
@@ -43,6 +43,20 @@ Theorem C20_recalc_min :
         (forall y, parent (nd s' y) = parent (nd s y)).
 Proof. exact recalc_min. Qed.
 Print Assumptions C20_recalc_min.
+
+(* recalc_asks ("each such node is asked again for its next time before the next wait"): the recalculation sweep calls
+   GetPulseTime() on exactly the attached nodes whose time is not valid (fired, invalidated, newly attached), once each,
+   with (now, previous value), and on nobody else *)
+Theorem C20_recalc_asks :
+  forall (gt : nat -> nat -> N -> N -> N * list cop),
+    (forall x k now prev, snd (gt x k now prev) = []) ->
+    forall f s r now s',
+      Good nobody (nd s) -> is_root (nd s) r = true -> top_get gt f s r now = Some s' ->
+      exists mn d, evs s' = EMin r mn :: d ++ evs s /\ NoDup (map ev_node d) /\
+        (forall e, In e d -> exists y k, e = EGet y k now (sched (nd s y)) /\ desc (nd s) r y /\ valid (nd s y) = false) /\
+        (forall y, desc (nd s) r y -> valid (nd s y) = false -> exists k, In (EGet y k now (sched (nd s y))) d).
+Proof. exact recalc_asks. Qed.
+Print Assumptions C20_recalc_asks.
 
 (* pulse_exact: on a freshly recalculated tree, with Pulse() callbacks that do not restructure it, a pulse sweep at
    time now calls Pulse() on exactly the attached nodes whose requested time is <= now, once each, with
